@@ -11,7 +11,7 @@
        extracted code, two carriers).  After every event each grid is tabulated (a closure that looks up an
        array) -- the model's grids are functions and would otherwise be re-evaluated through the whole history.
    META <fix1> <fix2> ev ev ...      (one peer / one reader)
-       ev:  d,it,pay | v,c | w,S | u,S,newname | s | o | r | q
+       ev:  d,it,pay | v,c | w,S | wa,S | wb | u,S,newname | s | o | r | q
             q prints  M ok=<trace ok so far> name,sync,has,pos,S cont=it:pay;..  D=it:pay;..   or  M ok=.. none D=.. *)
 open Model
 open X_fops
@@ -78,12 +78,14 @@ let meta (w : string array) =
   let st = ref pinit in
   let ok = ref true in
   let out = ref [] in
-  let step e = (if not (ev_ok (fst !st) e) then ok := false); st := pstep f1 f2 !st e in
+  let step e = (if not (ev_ok true (fst !st) e) then ok := false); st := pstep f1 f2 !st e in
   for k = 3 to Array.length w - 1 do
     match split ',' w.(k) with
     | [ "d"; it; pay ] -> step (PDeposit { hit = z_of_int (int_of_string it); hpay = z_of_int (int_of_string pay) })
     | [ "v"; c ] -> step (PVis (z_of_int (int_of_string c)))
     | [ "w"; s ] -> step (PWState (z_of_int (int_of_string s)))
+    | [ "wa"; s ] -> step (PWStateA (z_of_int (int_of_string s)))
+    | [ "wb" ] -> step PWStateB
     | [ "u"; s; nn ] -> step (PSetup (z_of_int (int_of_string s), nn = "1"))
     | [ "s" ] -> step RShare
     | [ "o" ] -> step RWState
